@@ -681,3 +681,49 @@ def r14(rr, repo):
         back = [n for n in outer.body if isinstance(n, ast.Assign) and U(n.targets[0]) == 'config.sources' and 'join(sources)' in U(n.value).replace(' ', '')]
         rr.ob('the rewritten sources are written back into the configuration of the filter, once per filter, after its sources were walked', len(back) == 1 and not q.effective_guards(back[0], outer)[:0] and
               back[0].lineno > rewrites[-1].lineno, cmod, back[0] if back else outer, witness=U(back[0])[:80] if back else 'no `config.sources = ", ".join(sources)` in the loop over the filters', key='rewrite-written-back')
+
+
+@rule('C12.R15', "whether a filter can be auto-chained to is decided for THAT class: the probe's answer is computed from the class it is asked about on every call - or remembered under that very class. An "
+                 "answer remembered as an attribute ON the class is found through inheritance as well (getattr / hasattr follow the hierarchy): once the plain Filter base class has answered, every "
+                 "Output-type class asked for the first time afterwards inherits 'can be chained to', becomes the predecessor of the next filter and is given an output it refuses")
+def r15(rr, repo):
+    cmod, fn = repo.find(f'{CLI}::filter_can_do_filter_outputs')
+    param = q.func_params(fn)[0]
+    KNOWN_DECOS = {'functools.cache', 'cache', 'functools.lru_cache', 'lru_cache', 'functools.lru_cache()', 'lru_cache()', 'functools.lru_cache(maxsize=None)', 'lru_cache(maxsize=None)'}      # keyed by the argument: the class itself
+
+    def class_attr_memo(f, arg):
+        """reads / stores of an attribute on the class object `arg` that the hierarchy shares (anything but the probe's own use of FILTER_TYPE / normalize_config)"""
+        out = []
+        for n in ast.walk(f):
+            if isinstance(n, ast.Call) and U(n.func) in ('getattr', 'hasattr', 'setattr') and n.args and U(n.args[0]) == arg:
+                out.append(n)
+            elif isinstance(n, (ast.Assign, ast.AugAssign, ast.NamedExpr)):
+                tg = n.targets if isinstance(n, ast.Assign) else [n.target]
+                for t in tg:
+                    for x in ast.walk(t):
+                        if isinstance(x, ast.Attribute) and isinstance(x.ctx, ast.Store) and U(x.value) == arg:
+                            out.append(n)
+        return out
+
+    memo = class_attr_memo(fn, param)
+    rr.ob("the probe keeps nothing on the class it is asked about (an attribute there is inherited by every subclass)", not memo, cmod, memo[0] if memo else fn, witness=U(memo[0])[:90] if memo else 'no attribute of the class is read by name or stored', key='probe-answer-per-class')
+    for d in fn.decorator_list:
+        text = U(d)
+        if text in KNOWN_DECOS:
+            rr.ob('a cache around the probe is keyed by the class object', True, cmod, d, witness=text, key=f'probe-decorator|{text}')
+            continue
+        target = [f for f in cmod.tree.body if isinstance(f, ast.FunctionDef) and f.name == (U(d.func) if isinstance(d, ast.Call) else text)]
+        if not target:
+            rr.unresolved('the probe is wrapped by a decorator this rule can not read', cmod, d, witness=text, key=f'probe-decorator|{text}')
+            continue
+        inner = [f for f in ast.walk(target[0]) if isinstance(f, (ast.FunctionDef, ast.Lambda)) and f is not target[0]]
+        hits = []
+        for w in inner:
+            args = [a.arg for a in w.args.args]
+            for a in args:
+                hits += class_attr_memo(w, a)
+        if hits:
+            rr.ob("a cache around the probe is keyed by the class object, not kept as an attribute on it", False, cmod, hits[0], witness=f'@{text}: {U(hits[0])[:90]}', key=f'probe-decorator|{text}')
+        else:
+            rr.unresolved('the probe is wrapped by a decorator whose effect on the answer was not decided', cmod, d, witness=text, key=f'probe-decorator|{text}')
+    rr.sites += 1 + len(fn.decorator_list)
